@@ -13,6 +13,7 @@ Sum(ps) == [k |-> "sum", parts |-> ps]
 Cp(ps, cs) == [k |-> "cp", parts |-> ps, axis |-> 1, cs |-> cs]
 Cp4(d) == Sum(<<Cp(<<Se1(d), Rq1(d), Se2(d), Se1(d)>>, <<0, 1, 1>>), Wn>>)      \* four kernels: only on the smallest point set (32-bit denominators)
 TinySet == << <<0>>, <<1>> >>
+Cp5(d) == Cp(<<Se1(d), Rq1(d), Se2(d), Se1(d), Rq1(d)>>, <<0, 1, 1, 0>>)          \* five kernels
 Kernels(d, n) == { Se1(d), Se2(d), Rq1(d), Rq2(d),
                    Sum(<<Se1(d), Wn>>), Sum(<<Rq2(d), Hn(n)>>), Sum(<<Se2(d), Rq1(d), Wn>>), Sum(<<Rq1(d), Se1(d), Hn(n), Wn>>) }
 \* change-point kernels: evaluated on the point sets with small coordinates only (the logistic weights 2^e/(1+2^e) have denominators
@@ -24,7 +25,7 @@ Means(d) == { [k |-> "const", th |-> <<2>>], [k |-> "lin", th |-> Pre(<<1, 2, -1
 VARIABLES X, kn, mf, out
 Init == /\ \/ X \in PointSets /\ kn \in Kernels(Len(X[1]), Len(X))
            \/ X \in CpPointSets /\ kn \in CpKernels(Len(X[1]), Len(X))
-           \/ X = TinySet /\ kn = Cp4(1)
+           \/ X = TinySet /\ kn \in {Cp4(1), Cp5(1)}
         /\ mf \in Means(Len(X[1])) /\ out = 0
 Q == Queries(Len(X[1]))
 Next == /\ out = 0 /\ out' = 1 /\ UNCHANGED <<X, kn, mf>>
